@@ -94,6 +94,7 @@ def generate(seed: int, run: int, tier: str) -> dict:
             op.update(name=rng.choice(name_pool), latex=rng.choice(LATEX), dim=rng.choice(DIMS))
             if kind in ("symbol", "indexed"):
                 op["assume"] = rng.choice(ASSUME)
+                op["kw"] = rng.random() < 0.3  # the dimension is passed by keyword (`dimension=...`)
             if kind == "function":
                 op["nargs"] = rng.choice([None, 1, 2])
                 if op["nargs"] and rng.random() < 0.5:
@@ -301,6 +302,11 @@ def _check_distinct(model: Model) -> None:
         raise Violation("alias", f"internal-name:{'+'.join(kinds)}", f"generated internal names reused: {dup[:3]}")
 
 
+def sx_global_index():
+    from symplyphysics import global_index  # pylint: disable=import-outside-toplevel
+    return global_index
+
+
 def _final_checks(model: Model) -> list[str]:
     """I4 (independence under subs/diff/solve) and I5 (printing)."""
     import sympy as sp  # pylint: disable=import-outside-toplevel
@@ -447,6 +453,23 @@ def _final_checks(model: Model) -> list[str]:
             bad = [m.group(0) for m in INTERNAL.finditer(text) if m.group(0) not in allowed]
             if bad:
                 raise Violation("print", f"code_str:{wrap.__name__}", f"code_str of {wrap.__name__} around an expression with display names shows generated internal name {bad[0]!r}: {text[:200]!r}")
+    # indexed sums and products over indexed symbols, with and without an applied function inside
+    gi = sx_global_index()
+    idx_terms = [r for r in model.recs if r["kind"] == "indexed"][:3]
+    fun_terms = [r for r in model.recs if r["kind"] == "function" and (r["extra"].get("nargs") in (None, 1))][:2]
+    from symplyphysics import IndexedSum, IndexedProduct  # pylint: disable=import-outside-toplevel
+    for ri in idx_terms:
+        inner_exprs = [ri["obj"][gi]] + [rf["obj"](ri["obj"][gi]) for rf in fun_terms]
+        for inner_e in inner_exprs:
+            for op_name, op_cls in (("IndexedSum", IndexedSum), ("IndexedProduct", IndexedProduct)):
+                for printer_name, printer in (("print_expression", print_expression), ("code_str", code_str)):
+                    try:
+                        text = printer(op_cls(inner_e, gi))
+                    except Exception:  # pylint: disable=broad-except
+                        continue
+                    bad = [m.group(0) for m in INTERNAL.finditer(text) if m.group(0) not in allowed]
+                    if bad:
+                        raise Violation("print", f"{printer_name}:{op_name}", f"{printer_name} of an {op_name} over objects with display names shows generated internal name {bad[0]!r}: {text[:200]!r}")
     # printing after the expression was rebuilt by SymPy (doit / simplify / expand / subs of an index)
     idx_i, idx_k = sp.Idx("i"), sp.Idx("k")
     rebuilt_terms = []
@@ -590,11 +613,17 @@ def _apply(op: dict, model: Model, state: dict):  # pylint: disable=too-many-bra
     name, latex = op.get("name"), op.get("latex")
     if k == "symbol":
         kw = dict(op.get("assume") or {})
-        o = sx.Symbol(name, _dim(op["dim"]), display_latex=latex, **kw)
+        if op.get("kw"):
+            o = sx.Symbol(name, dimension=_dim(op["dim"]), display_latex=latex, **kw)
+        else:
+            o = sx.Symbol(name, _dim(op["dim"]), display_latex=latex, **kw)
         model.add("symbol", o, name, latex, _dim(op["dim"]), _expected_assumptions(kw), defaulted=not name, extra={"default_display": lambda o: str(o.name)})
     elif k == "indexed":
         kw = dict(op.get("assume") or {})
-        o = sx.IndexedSymbol(name, None, _dim(op["dim"]), display_latex=latex, **kw)
+        if op.get("kw"):
+            o = sx.IndexedSymbol(name, dimension=_dim(op["dim"]), display_latex=latex, **kw)
+        else:
+            o = sx.IndexedSymbol(name, None, _dim(op["dim"]), display_latex=latex, **kw)
         model.add("indexed", o, name, latex, _dim(op["dim"]), None, defaulted=name is None, extra={"default_display": lambda o: str(o.name), "kw": kw})
     elif k == "function":
         nargs = op.get("nargs")
@@ -816,7 +845,7 @@ def simplify(job):
     out = []
     ops = job["ops"]
     for i, op in enumerate(ops):
-        for key, simple in (("latex", None), ("subscript", None), ("assume", None), ("name", "m"), ("nargs", None), ("prefix", None)):
+        for key, simple in (("latex", None), ("subscript", None), ("assume", None), ("name", "m"), ("nargs", None), ("prefix", None), ("kw", False), ("thread", False)):
             if key in op and op[key] not in (simple, {}):
                 out.append(dict(job, ops=ops[:i] + [dict(op, **{key: simple})] + ops[i + 1:]))
         if op["op"] == "jump":
